@@ -430,6 +430,11 @@ def run_body(body, name, tier, seed, functions=(), bounds=None, stubs=(), timeou
             from .core import Obligation
             import traceback as _tb
 
+            frames = _tb.extract_tb(e.__traceback__)
+            if not any("/atomica/" in f.filename and "/verif/" not in f.filename for f in frames[-3:]):
+                # raised by harness code itself, not by the code under analysis
+                raise HarnessError("harness raised %s: %s at %s:%d" % (type(e).__name__, e, frames[-1].filename, frames[-1].lineno))
+
             w = ctx.reachable("path-of-crash")
             ctx.obligations.remove(w)
             ob = Obligation("no_undeclared_exception", dict(key="crash[%s]" % type(e).__name__))
